@@ -35,6 +35,10 @@ Slots == <<
   [n |-> "inlinenote", t |-> "x[^@] y\n",                             v |-> FALSE],
   [n |-> "emph",      t |-> "*@*\n",                                  v |-> FALSE],
   \* addresses and image titles (an address cannot contain blanks: the run is written without them -- see Run)
+  \* a metadata value that runs on over lines that look like the start of a block (a quote, a list item, a table row)
+  [n |-> "metaquote", t |-> "Title: first\n> @\n\nbody\n",             v |-> TRUE],
+  [n |-> "metalist",  t |-> "Title: first\n* @\n\nbody\n",             v |-> TRUE],
+  [n |-> "metapipe",  t |-> "Title: first\nx | @\n\nbody\n",           v |-> TRUE],
   [n |-> "imgtitle",  t |-> "![a](i.png \"@\")\n",                    v |-> TRUE],
   [n |-> "url",       t |-> "[t](http://u.rl/?q=@)\n",                v |-> TRUE],
   [n |-> "imgurl",    t |-> "![a](i.png?q=@)\n",                      v |-> TRUE] >>
